@@ -41,11 +41,34 @@ def build_impl(dom, cliques, order):
         elif isinstance(order, list) and ORDER_FORM[0] % 4 == 3:
             given = tuple(order)
         ORDER_FORM[0] += 1
-        jt = JunctionTree(d, [tuple(c) for c in cliques], given)
+        # the clique collection and each clique in any iterable spelling, one-shot ones included
+        cf = ORDER_FORM[0] % 7
+        mk = {0: tuple, 1: tuple, 2: list, 3: iter, 4: (lambda c: (a for a in c)), 5: (lambda c: map(str, c)), 6: (lambda c: dict.fromkeys(c).keys())}[cf]
+        cls_arg = [mk(list(c)) for c in cliques]
+        if ORDER_FORM[0] % 3 == 2:
+            cls_arg = iter(cls_arg)
+        jt = JunctionTree(d, cls_arg, given)
     finally:
         np.random.choice = real_choice
     nodes = [list(n) for n in jt.maximal_cliques()]
     edges = [[list(a), list(b)] for a, b in jt.tree.edges()]
+    # a caller may consume what the accessors hand out (the schedule as a work queue, say): later calls must not notice
+    if ORDER_FORM[0] % 2 == 0:
+        for acc in (jt.mp_order, jt.maximal_cliques):
+            got = acc()
+            if isinstance(got, list):
+                got.reverse()
+                del got[:]
+        sa = jt.separator_axes()
+        if isinstance(sa, dict):
+            sa.clear()
+        nb = jt.neighbors()
+        if isinstance(nb, dict):
+            for v in nb.values():
+                if isinstance(v, set):
+                    v.clear()
+            nb.clear()
+        nodes = [list(n) for n in jt.maximal_cliques()]
     mp = [[list(a), list(b)] for a, b in jt.mp_order()]
     seps = {(tuple(a), tuple(b)): tuple(s) for (a, b), s in jt.separator_axes().items()}
     nbrs = {tuple(k): set(map(tuple, v)) for k, v in jt.neighbors().items()}
